@@ -84,6 +84,10 @@ pub trait Component {
     fn rule(&self) -> &'static str;
 }
 
+thread_local! {
+    static LAST_PANIC: std::cell::RefCell<String> = const { std::cell::RefCell::new(String::new()) };
+}
+
 fn parse_flag(args: &[String], flag: &str) -> Option<String> {
     args.iter()
         .position(|a| a == flag)
@@ -101,8 +105,13 @@ fn fnv(s: &str) -> u64 {
 
 /// Entry point shared by every component binary (`src/bin/<component>.rs`).
 pub fn run_main(comp_name: &str, mut comp: Box<dyn Component>) {
-    // Keep panics inside catch_unwind quiet; they are reported as observations.
-    std::panic::set_hook(Box::new(|_| {}));
+    // Keep panics inside catch_unwind quiet; they are reported as observations (message and location are kept for
+    // the panic-freedom monitor below).
+    std::panic::set_hook(Box::new(|info| {
+        let msg = info.payload().downcast_ref::<&str>().map(|s| s.to_string()).or_else(|| info.payload().downcast_ref::<String>().cloned()).unwrap_or_default();
+        let loc = info.location().map(|l| format!("{}:{}", l.file(), l.line())).unwrap_or_default();
+        LAST_PANIC.with(|p| *p.borrow_mut() = format!("{msg} at {loc}"));
+    }));
     let args: Vec<String> = std::env::args().collect();
     if args.len() < 2 {
         eprintln!("usage: {comp_name} run --seed S --cases N --tier T --out DIR | exec <ops-file> --out DIR");
@@ -200,6 +209,15 @@ pub fn run_main(comp_name: &str, mut comp: Box<dyn Component>) {
                 Ok(o) => o,
                 Err(_) => {
                     mon.count("panic");
+                    // C09 / C15: processing an arbitrary datagram / decoding an arbitrary byte string never panics.
+                    // A panic of the REAL code under this harness (arithmetic overflow included: the harness is built
+                    // with overflow checks) is a failing input for those two, whatever the model says.
+                    if let Ok(p) = std::env::var("VERIF_PROP") {
+                        if p == "C09" || p == "C15" {
+                            let what = LAST_PANIC.with(|p| p.borrow().clone());
+                            mon.fail(&p, "panic", format!("the real code panicked on `{}`: {}", &line[..line.len().min(200)], &what[..what.len().min(300)]));
+                        }
+                    }
                     "PANIC".to_string()
                 }
             };
